@@ -118,11 +118,14 @@ impl Timer {
                 || exists|m0: &mut (), a: TimeoutAction|
                 #[trigger] call_ensures(callback, (old(self).dl()->Some_0, m0), a) && match a {
                     TimeoutAction::Drop => r == Ok::<PostAction, std::io::Error>(PostAction::Remove) && final(self).dl() == old(self).dl(),
-                    TimeoutAction::ToInstant(i) => r == Ok::<PostAction, std::io::Error>(PostAction::Continue) && final(self).dl() == Some(i),
+                    // (must-call) ... and the rescheduled arming IS back in the wheel, under the timer's own counter and token
+                    TimeoutAction::ToInstant(i) => r == Ok::<PostAction, std::io::Error>(PostAction::Continue) && final(self).dl() == Some(i)
+                        && w_wheel_reinserted(old(self).reg_counter()->Some_0, i, token),
                     // a relative reschedule counts from a FRESH clock read (never from the old deadline: a late delivery must not
                     // make the next firing early)
                     TimeoutAction::ToDuration(d) => (r == Ok::<PostAction, std::io::Error>(PostAction::Remove) && final(self).dl() is None)
                         || (r == Ok::<PostAction, std::io::Error>(PostAction::Continue) && (final(self).dl() matches Some(x)
+                                && w_wheel_reinserted(old(self).reg_counter()->Some_0, x, token)
                                 && exists|now: Instant| #[trigger] clock_read(now) && nanos(x) == nanos(now) + dur_ns(d))),
                 }),
 //@ entry
